@@ -85,6 +85,38 @@ CHECKS['C18'] = dict(
     technique='Lean 4 proof (no write to cross-run cells => history independence) + introspection/AST premises + history vs fresh-process differential',
     design='DESIGN.md §3 C18')
 
+CHECKS['C01'] = dict(
+    text='Lean theorems on the model of RawX12File / X12Reader.__iter__ / Segment: for every text and every read-size oracle (sizes >= 1) the '
+         'reader yields exactly the declarative split (raw_chunk_independent, reader_chunk_independent); the split is sound and complete '
+         'w.r.t. a decomposition of the text into CR/LF runs, terminator-free lines and terminators (spec_sound_complete); split/join are '
+         'inverse, ISA is never sub-split, parsing is lossless, parse(format s) = normalised s, format-parse-format is idempotent, re-reading '
+         'the formatted segments gives the same segments (reread_same), the reader never raises. Tied to /repo by texts over many delimiter '
+         'triples, line-break styles, segments straddling/exceeding the 8 KiB buffer, read oracles down to 1 char, read through a stream '
+         'AND by path, compared per segment (id, every value, format(), error codes) with the model and an independent splitter.',
+    note=COMMON_NOTE + ' open(), ASCII decoding and universal-newline translation are exercised, not modelled (opening by path translates a CR terminator to LF).',
+    technique='Lean 4 proof (chunk independence, split/join, parse/format laws, unbounded) + stream-oracle and by-path differential',
+    design='DESIGN.md §3 C01')
+CHECKS['C04'] = dict(
+    text='Lean theorems on the model of X12Base/X12Reader._parse_segment + cleanup: for every structured document (interchanges > groups > '
+         'sets > body, any control numbers and counts incl. non-numeric, HL/LX numbering) the reader\'s errors equal, segment by segment, a '
+         'structural recount written without stack or running counters (reader_eq_recount_segs, reader_eq_recount_open for missing trailers); '
+         'consistent envelopes draw no error; the HL stack is the ancestor chain; the reader never crashes (reader_total). The last clause '
+         '(every improper arrangement draws an error) is FALSE of the code: kept as not_nested_reports_full with a proved counterexample and '
+         'a proved _partial; the arrangement classes are known findings. Tied to /repo by 20 000 random segment sequences per run against '
+         'the real X12Reader (pop_errors after every segment, cleanup) and an independent Python recount.',
+    note=COMMON_NOTE + ' ASCII count fields; with check_837_lx every LX follows a CLM of the same set.',
+    technique='Lean 4 proof (reader errors = structural recount, totality; unbounded) + random segment-sequence differential',
+    design='DESIGN.md §3 C04')
+CHECKS['C12'] = dict(
+    text='Lean theorems (on the C01 tokenizer / segment-text model): encoding one segment list with two admissible delimiter triples and any '
+         'CR/LF layout parses to the same segments (reencode_invariant, read_encoded, reencode_invariant_reader), so everything downstream of '
+         'the reader sees identical input. That the rest of the real pipeline consults the text only through the parsed segments is decided by '
+         'the metamorphic run on the real code: generated documents with 0-2 faults x delimiter triples x line-break styles must give the same '
+         'verdict, error set (level, code, segment position, element position, value) and acknowledgement body.',
+    note=COMMON_NOTE + ' PARTIAL: the pipeline behind the reader is not modelled end to end here; its delimiter independence is exercised, not proved.',
+    technique='Lean 4 proof (re-encoding invariance of the reader) + metamorphic run of the real validator',
+    design='DESIGN.md §3 C12')
+
 PENDING_REASON = 'check under construction in this session (see DESIGN.md §3); not yet claimed'
 
 
